@@ -43,6 +43,20 @@ CONFIG = {
             "fuel": {}, "helpers": "src/a.c", "have": 1, "real": 8, "aux": [],
             "what": "Horner evaluators and coefficient swap of src/poly.c, wrappers of a/poly.h",
             "hyp": "none on sizes; the range of coefficients is not empty (the empty range, undefined in C, is an error on both sides)"},
+    "C08": {"sources": [("src/linalg.c", ["a_real_triL1", "a_real_triL", "a_real_triU", "a_real_diag1"]),
+                        ("src/linalg_ldl.c", ["a_real_ldl" + k for k in " _L _D _lower _lower_ _upper _upper_ _solve _inv _inv_ _det _lndet".split(" ")]),
+                        ("src/linalg_llt.c", ["a_real_llt" + k for k in " _L _lower _lower_ _upper _upper_ _solve _inv _inv_ _det _lndet".split(" ")]),
+                        ("src/linalg_plu.c", ["a_real_plu" + k for k in "_L _U _lower _lower_ _upper _upper_ _det _lndet".split()])],
+            "regions": {}, "fuel": {}, "helpers": "src/a.c", "have": 1, "real": 8,
+            "aux": ["a_real_triL1", "a_real_triL", "a_real_triU", "a_real_diag1"],
+            "what": "LDL^T and Cholesky routines and the permutation-free PLU routines",
+            "hyp": "the order is an a_uint value (U32); plu_det for a non-negative sign"},
+    "C09": {"sources": [("src/linalg.c", ["a_real_" + k for k in
+                                          "T1 T2 eye1 eye2 tri1 tri2 diag diag1 diag2 triL triL1 triL2 triU triU1 triU2 mulmm mulTm mulmT mulTT".split()])],
+            "regions": {}, "fuel": {}, "helpers": "src/a.c", "have": 1, "real": 8,
+            "aux": [], "what": "matrix kernels of src/linalg.c",
+            "hyp": "the dimensions are a_uint values (U32), the hypothesis of the model's own theorems; with it neither the model's "
+                   "wrapping offsets nor the generated code's checked offsets overflow"},
     "C13": {"sources": [("src/pid.c", ["a_pid_set_kpid", "a_pid_zero"]),
                         ("src/pid_fuzzy.c", ["a_pid_fuzzy_opr", "a_pid_fuzzy_set_opr", "a_pid_fuzzy_mf", "a_pid_fuzzy_out_", "a_pid_fuzzy_zero"])],
             "regions": {}, "fuel": {}, "helpers": "src/a.c", "have": 1, "real": 8,
